@@ -31,6 +31,9 @@ OWN = [
     ["name r1", "version 1.0", "", "MeasureX | 0", "Dgate(q0*2) | 1"],
     ["name r2", "version 1.0", "", "MeasureX | 0", "MeasureP | 1", "Dgate(q0+q1*2.5, k=q1/q0) | 2"],
     ["name r3", "version 1.0", "", "MeasureX | 12", "Zgate(q12**2-q1*q12+3) | %(m)s"],
+    # expressions that a symbol with assumptions (real, positive) would let SymPy rewrite into functions Blackbird does not have
+    ["name r5", "version 1.0", "", "MeasureX | 0", "MeasureX | 1", "Dgate(sqrt(q0**2), 0.5/sqrt(q1*q1)) | 2", "Rgate((q0**2)**0.5, k=sqrt(q0**2+q1**2)) | 3"],
+    ["name t8", "version 1.0", "", "Dgate(sqrt({a}**2), exp(log({b}))) | %(m)s", "Rgate(({a}**2)**0.5, k=sqrt({a}*{a})*{b}) | %(m)s"],
     ["name r4", "version 1.0", "", "MeasureX | 0", "Zgate(sin(q0)*2, -q0) | %(m)s"],
     # arrays as arguments, loops computing modes, lists
     ["name a1", "version 1.0", "", "float array A =", "    %(f)s, %(f)s", "    %(f)s, %(f)s", "Interferometer(A) | [%(m)s, %(m)s]", "Gate(U=A, k=%(i)s) | %(m)s"],
@@ -40,6 +43,11 @@ OWN = [
     ["name l2", "version 1.0", "", "int k = %(m)s", "Vac | [k, k+%(i)s+100]", "Gate(vals=[%(i)s, 2*%(i)s, %(f)s/2], names=[\"x\", \"y z\"], flags=[True, False]) | k"],
     ["name l3", "version 1.0", "target X8 (shots=%(i)s, vals=[%(i)s, %(f)s], label=\"abc\", on=True)", "type tdm2 (copies=%(i)s*2)", "", "Vac | %(m)s"],
     ["name v1", "version 1.0", "", "complex z = %(c)s", "float y = -%(f)s", "int n = -%(i)s", "Gate(z, y, n, k=z*2) | %(m)s", "str s = \"hello\"", "bool b = False", "Gate(s, b) | %(m)s"],
+    # arrays of every element type with parameters among the elements, as arguments: numbers before the first parameter, after it, around it
+    ["name a6", "version 1.0", "", "int array U =", "    %(i)s, %(i)s, {a}", "Gate(U) | %(m)s"],
+    ["name a7", "version 1.0", "", "complex array U =", "    %(c)s, {a}", "    {b}, %(c)s", "Gate(U, k=U) | %(m)s"],
+    ["name a8", "version 1.0", "", "complex array U =", "    %(c)s, %(c)s, {a}", "Gate(U) | %(m)s"],
+    ["name a9", "version 1.0", "", "int array U =", "    {a}, %(i)s", "    %(i)s, {b}", "Gate(k=U) | %(m)s", "float array V =", "    %(f)s, {a}, %(f)s", "Gate(V, U) | %(m)s"],
     # several arrays in one program whose values may coincide while shape / element type differ
     ["name a4", "version 1.0", "", "float array A =", "    %(f)s, %(f)s", "    %(f)s, %(f)s", "float array B =", "    %(f)s, %(f)s, %(f)s, %(f)s", "Gate(A) | %(m)s", "Reweight(B, k=A) | %(m)s"],
     ["name a5", "version 1.0", "", "int array A =", "    %(i)s, %(i)s", "float array B =", "    %(f)s, %(f)s", "complex array C =", "    %(c)s, %(c)s", "Gate(A, B, C) | %(m)s", "Gate(C, A) | %(m)s"],
